@@ -95,7 +95,10 @@ func (exec *Executor) execArrayIndex(
 
 				res, resErr = exec.executeNextItem(ctx, node, next, v, found)
 				if res.failed() || (res == statusOK && found == nil) {
-					break
+					// Stop at the first failure (or, when only checking
+					// for existence, the first item); don't let a later
+					// subscript overwrite the result.
+					return res, resErr
 				}
 			}
 		}
